@@ -91,6 +91,7 @@ type Node struct {
 	// the command pattern or the output paths (created with InParam only); the
 	// function reads the values with task.Param - an empty string is then a value
 	HiddenParams bool
+	LongArg int  // > 0: the command line carries an extra word of that many bytes (-note W: no influence on the result)
 	Say     int  // > 0: the command prints that many bytes WITHOUT a newline on its standard output (a progress bar)
 	Head    int  // > 0: the command reads only the first Head bytes of each input and closes it (head -c)
 	TouchIn bool // the command re-writes its first input in place (same bytes, later mtime)
@@ -224,6 +225,9 @@ func (w *WF) Describe() string {
 		}
 		if n.Say > 0 {
 			fmt.Fprintf(&b, " prints-%d-bytes-without-newline", n.Say)
+		}
+		if n.LongArg > 0 {
+			fmt.Fprintf(&b, " command-line-with-a-%d-byte-word", n.LongArg)
 		}
 		if n.NoSpawn {
 			b.WriteString(" spawn=false")
